@@ -450,7 +450,7 @@ PROPS["C15"] = dict(
           "listener channels are closed; every entry point (SyncAdChain, SyncEntries, SyncOneEntry, SyncHAMTEntries, Announce, OnSyncFinished, "
           "cancel functions, Get/SetLatestSync, RemoveHandler, HttpPeerStore, Close) returns on the closed subscriber (hang rule); no goroutine "
           "with a dagsync/announce frame remains. distinct_nontrivial = distinct (sync kind, close point, closers, racing activity) tuples."),
-    floors={"quick": {"post_close_calls": 800, "close_point_reached_sync.enter": 5, "close_point_reached_front": 5, "close_point_reached_pending.taken": 2, "closers_4": 5}},
+    floors={"quick": {"post_close_calls": 800, "close_point_reached_sync.enter": 5, "close_point_reached_front": 5, "close_point_reached_pending.taken": 2, "closers_4": 5, "close_with_sync_waiting_for_async_slot": 1}},
     watchdog_s={"quick": 900, "thorough": 7200},
     level_text=("Exploration over schedules: Close is started at every instrumented point of a running sync; what happens after its first return "
                 "is read from the event log and goroutine dumps; blocking is decided by the hang rule."),
